@@ -55,6 +55,17 @@ class Objectives:
         return {"lbs": [big(int(o.lower_bound())) for o in self.objs],
                 "ubs": [big(int(o.upper_bound())) for o in self.objs]}
 
+    def record_fields(self, rows: list, nb: int) -> dict:
+        """The same packing through the result record of the library (instance names of the drivers repeat)."""
+        try:
+            r = bp.result_record(self.inst, rows, nb)
+            names = [str(o) for o in self.objs]
+            return {"rvals": [big(int(r.objectives[n])) for n in names],
+                    "rlbs": [big(int(r.objective_bounds[n + ".lowerBound"])) for n in names],
+                    "rubs": [big(int(r.objective_bounds[n + ".upperBound"])) for n in names]}
+        except (ValueError, TypeError, KeyError) as ex:
+            return {"rvals": [], "rlbs": [], "rubs": [], "record_error": f"{type(ex).__name__}: {str(ex)[:160]}"}
+
     def evaluate(self, rows: list, nb: int) -> dict:
         y = bp._mods()["Packing"](self.inst)
         y[:, :] = np.array(rows, dtype=np.int64).reshape(y.shape)
@@ -155,6 +166,8 @@ def _case(cid: str, inst, packs: list, objs: Objectives) -> dict:
     rec = {"id": cid, **bp.inst_record(inst), **objs.bounds(), "packs": []}
     for rows, nb in packs:
         rec["packs"].append(objs.evaluate(rows, nb))
+    if rec["packs"]:       # the first packing of the case also through the library's result record
+        rec["packs"][0].update(objs.record_fields(packs[0][0], packs[0][1]))
     return rec
 
 
